@@ -57,6 +57,9 @@ func (c *containerServer) handleExecve(cmd *execCmd, msg unixsocket.Msg) error {
 		cmd.Argv[0] = exePath
 	}
 
+	// synced is set once the host has acknowledged the synchronisation: from then on the
+	// host is waiting for a result and answers whatever reply it gets with a kill
+	synced := false
 	syncPid := func(pid int) error {
 		msg := unixsocket.Msg{
 			Cred: &syscall.Ucred{
@@ -75,6 +78,7 @@ func (c *containerServer) handleExecve(cmd *execCmd, msg unixsocket.Msg) error {
 		if cmd.Cmd == cmdKill {
 			return fmt.Errorf("sync func: received kill")
 		}
+		synced = true
 		return nil
 	}
 	var syncFunc func(pid int) error
@@ -119,7 +123,18 @@ func (c *containerServer) handleExecve(cmd *execCmd, msg unixsocket.Msg) error {
 		if len(cmd.Argv) > 0 {
 			s = cmd.Argv[0]
 		}
-		return c.sendErrorReply("start: %s: %v", s, err)
+		if err := c.sendErrorReply("start: %s: %v", s, err); err != nil {
+			return err
+		}
+		if synced {
+			// the launch failed after the host acknowledged the sync (e.g. execve failed):
+			// the host treats the error reply as the result and sends kill, consume it here
+			// so it is not taken as the next top-level command
+			if _, _, err := c.recvCmd(); err != nil {
+				return err
+			}
+		}
+		return nil
 	}
 	if cmd.SyncAfter {
 		if err := syncPid(1); err != nil {
